@@ -310,4 +310,81 @@ where
         have e : off + n + k.width c = off + k.width c + n := by omega
         rw [e]; exact this
 
+
+theorem layout_shift_down : ∀ {ks cs off stop}, LayoutOK ks cs off stop → ∀ n, n ≤ off →
+    LayoutOK ks cs (off - n) (stop - n)
+  | [], [], _, _, h, n, hn => by simp only [LayoutOK] at *; omega
+  | [], _ :: _, _, _, h, _, _ => by simp [LayoutOK] at h
+  | _ :: _, [], _, _, h, _, _ => by simp [LayoutOK] at h
+  | k :: ks, c :: cs, off, stop, h, n, hn => by
+    unfold LayoutOK at h ⊢
+    by_cases hk : k = .remaining
+    · simp only [hk, if_true] at h ⊢
+      refine ⟨h.1, h.2.1, ?_⟩
+      omega
+    · simp only [hk, if_false] at h ⊢
+      refine ⟨h.1, ?_⟩
+      have := layout_shift_down h.2 n (by omega)
+      have e : off - n + k.width c = off + k.width c - n := by omega
+      rw [e]; exact this
+
+/-- Shrinking field `f` by `amt` bytes: same statement as `notifyUp_ptrsFrom`, downwards. -/
+theorem notifyDown_ptrsFrom : ∀ {ks cs off stop f k c p c' amt}, LayoutOK ks cs off stop →
+    ks[f]? = some k → cs[f]? = some c → (ptrsFrom off ks cs)[f]? = some p →
+    k.width c = k.width c' + amt → (k ≠ .remaining → 0 < k.width c') →
+    notifyDown (ptrsFrom off ks cs) p.addr amt = some (ptrsFrom off ks (cs.set f c')) ∧
+      LayoutOK ks (cs.set f c') off (stop - amt) ∧ off ≤ p.addr ∧ p.addr + k.width c ≤ stop
+  | [], _, _, _, _, _, _, _, _, _, _, hk, _, _, _, _ => by simp at hk
+  | _ :: _, [], _, _, _, _, _, _, _, _, _, _, hc, _, _, _ => by simp at hc
+  | k0 :: ks, c0 :: cs, off, stop, 0, k, c, p, c', amt, h, hk, hc, hp, hw, hpos => by
+    simp only [List.getElem?_cons_zero, Option.some.injEq] at hk hc
+    subst hk; subst hc
+    simp only [ptrsFrom, List.getElem?_cons_zero, Option.some.injEq] at hp
+    subst hp
+    unfold LayoutOK at h
+    by_cases hr : k0 = .remaining
+    · simp only [hr, if_true] at h
+      obtain ⟨rfl, rfl, hcs⟩ := h
+      subst hr
+      simp only [Kind.width] at hw
+      simp [ptrsFrom, notifyDown, Ptr.notifyDown, List.set, LayoutOK, Kind.width]
+      omega
+    · simp only [hr, if_false] at h
+      have hle := LayoutOK.le h.2
+      have ht := notifyDown_all_gt (ks := ks) (cs := cs) (off := off + k0.width c0) (src := off) (n := amt)
+        (by omega) (by omega)
+      have e : off + k0.width c0 - amt = off + k0.width c' := by omega
+      refine ⟨?_, ?_, Nat.le_refl _, by simpa using hle⟩
+      · simp [ptrsFrom, notifyDown, Ptr.notifyDown, List.set, ht, e]
+      · simp only [List.set, LayoutOK, hr, if_false]
+        refine ⟨hpos hr, ?_⟩
+        rw [← e]
+        exact layout_shift_down h.2 amt (by omega)
+  | k0 :: ks, c0 :: cs, off, stop, f + 1, k, c, p, c', amt, h, hk, hc, hp, hw, hpos => by
+    simp only [List.getElem?_cons_succ] at hk hc
+    simp only [ptrsFrom, List.getElem?_cons_succ] at hp
+    unfold LayoutOK at h
+    by_cases hr : k0 = .remaining
+    · simp only [hr, if_true] at h
+      obtain ⟨rfl, rfl, _⟩ := h
+      simp at hk
+    · simp only [hr, if_false] at h
+      obtain ⟨ih1, ih2, ih3, ih4⟩ := notifyDown_ptrsFrom (c' := c') (amt := amt) h.2 hk hc hp hw hpos
+      have hr' : decide (k0 = .remaining) = false := by simp [hr]
+      refine ⟨?_, ?_, by omega, ih4⟩
+      · have : ¬ (p.addr < off) := by omega
+        simp [ptrsFrom, notifyDown, Ptr.notifyDown, List.set, ih1, this, hr']
+      · simp only [List.set, LayoutOK, hr, if_false]
+        exact ⟨h.1, ih2⟩
+
+theorem ptrsFrom_getElem?_isSome : ∀ {ks : List Kind} {cs : List Nat} {off f : Nat} {k : Kind} {c : Nat}, ks[f]? = some k → cs[f]? = some c →
+    ∃ p, (ptrsFrom off ks cs)[f]? = some p
+  | [], _, _, _, _, _, hk, _ => by simp at hk
+  | _ :: _, [], _, _, _, _, _, hc => by simp at hc
+  | k0 :: ks, c0 :: cs, off, 0, k, c, _, _ => ⟨⟨off, decide (k0 = .remaining)⟩, by simp [ptrsFrom]⟩
+  | k0 :: ks, c0 :: cs, off, f + 1, k, c, hk, hc => by
+    simp only [List.getElem?_cons_succ] at hk hc
+    obtain ⟨p, hp⟩ := ptrsFrom_getElem?_isSome (off := off + k0.width c0) hk hc
+    exact ⟨p, by simp [ptrsFrom, hp]⟩
+
 end Unsized.Runtime
